@@ -259,6 +259,13 @@ void run_sweep(Stats& st) {
 		}
 		Tape t(tp); success_case(ws, f, t, st);
 	}
+	// audio data that ends in (or is) a long block of zeros - silence - in the last track and in a middle one
+	for (unsigned v = 0; v < 4; ++v) { if (!sw("silence", v)) continue;
+		std::vector<Wav> ws;
+		for (unsigned i = 0; i < 3; ++i) { Wav w; w.base = std::string(1, char('k' + i)) + "_sil"; w.ext = ".wav"; w.dir = ""; w.spec.fmt = f; w.spec.fmt18 = i & 1; w.spec.data.resize(30 + i); for (size_t k = 0; k < w.spec.data.size(); ++k) w.spec.data[k] = uint8_t(k + 3 * i + 1);
+			if (i == (v & 1 ? 1u : 2u)) { size_t head = v & 2 ? 3000 : 0; w.spec.data.assign(head + 8192, 0); for (size_t k = 0; k < head; ++k) w.spec.data[k] = uint8_t(k * 11 + 7); }
+			w.bytes = refclm::build_wav(w.spec); ws.push_back(w); }
+		Tape t(tp); success_case(ws, f, t, st); }
 	// long chunk chains and a large chunk after the data
 	for (unsigned variant = 0; variant < 3; ++variant) {
 		if (!sw("chunk_chain", variant)) continue;
